@@ -694,3 +694,94 @@ V("c10-trim-drops-chars", A, ["C10", "C11"], None,
         this=exp.Cast(this=operand, to=exp.DataType(this=exp.DataType.Type.VARCHAR, nested=False, prefix=False))
     )"""))
 V("c15-unset-undefined-keyerror", A, "C15", "C15.f", ("variables", "self._variables.pop(name, None)", "self._variables.pop(name)"))
+
+# ---------------------------------------------------------------- batch 8 rules
+V("c01-column-rewritten-before-insert", A, "C01", "C01.c5",
+  ("pandas_tools", """    escaped_cols = ",".join(f'"{col}"' for col in df.columns.to_list())""",
+   """    for col in df.select_dtypes(include=["datetimetz"]).columns:
+        df[col] = df[col].dt.tz_localize(None)
+    escaped_cols = ",".join(f'"{col}"' for col in df.columns.to_list())"""))
+V("c12-exploded-statements-skip-pipeline", A, "C12", "C12.i",
+  ("cursor", """                transformed = self._transform(exp)
+                self._execute(transformed, params)""",
+   """                transformed = self._transform(exp) if expression is exp else exp.transform(transforms.upper_case_unquoted_identifiers)
+                self._execute(transformed, params)"""))
+V("c07-nop-answered-without-engine", A, "C07", "C07.j",
+  ("cursor", """                transformed = transforms.SUCCESS_NOP
+                self._execute(transformed, params)
+                return self""", """                self._arrow_table = pyarrow.table({"status": ["Statement executed successfully."]})
+                self._arrow_table_fetch_index = None
+                self._rowcount = 1
+                self._last_sql = SQL_SUCCESS
+                self._last_params = None
+                return self"""))
+V("c09-columns-redirect-drops-catalog", A, "C09", "C09.l",
+  ("transforms", """        expression.set("this", exp.Identifier(this="_FS_COLUMNS_SNOWFLAKE", quoted=False))""",
+   """        return exp.table_("_FS_COLUMNS_SNOWFLAKE", db=expression.db, alias=expression.alias or None)"""))
+V("c09-neutral-columns-redirect-rebuilt", N, ["C09", "C03"], None,
+  ("transforms", """        expression.set("this", exp.Identifier(this="_FS_COLUMNS_SNOWFLAKE", quoted=False))""",
+   """        return exp.table_("_FS_COLUMNS_SNOWFLAKE", db=expression.db, catalog=expression.catalog or None, alias=expression.alias or None)"""))
+V("c16-generator-not-consumed", A, "C16", "C16.a",
+  ("conn", """        cursors = [
+            self.cursor(cursor_class).execute(e.sql(dialect="snowflake"))
+            for e in sqlglot.parse(sql_text, read="snowflake")
+            if e and not isinstance(e, exp.Semicolon)  # ignore comments
+        ]
+        return cursors if return_cursors else []""", """        cursors = (
+            self.cursor(cursor_class).execute(e.sql(dialect="snowflake"))
+            for e in sqlglot.parse(sql_text, read="snowflake")
+            if e and not isinstance(e, exp.Semicolon)  # ignore comments
+        )
+        return list(cursors) if return_cursors else []"""))
+V("c16-neutral-generator-consumed", N, "C16", None,
+  ("conn", """        cursors = [
+            self.cursor(cursor_class).execute(e.sql(dialect="snowflake"))
+            for e in sqlglot.parse(sql_text, read="snowflake")
+            if e and not isinstance(e, exp.Semicolon)  # ignore comments
+        ]
+        return cursors if return_cursors else []""", """        pending = (
+            self.cursor(cursor_class).execute(e.sql(dialect="snowflake"))
+            for e in sqlglot.parse(sql_text, read="snowflake")
+            if e and not isinstance(e, exp.Semicolon)  # ignore comments
+        )
+        cursors = list(pending)
+        return cursors if return_cursors else []"""))
+V("c03-show-in-schema-without-current-db", A, "C03", "C03.e",
+  ("transforms", "        catalog = table.db or current_database\n        schema = table.name", "        catalog = table.db\n        schema = table.name"))
+V("c10-scaled-to-timestamp-uncast", A, "C10", "C10.d",
+  ("transforms", """    if isinstance(expression, exp.UnixToTime):
+        return exp.Cast(""", """    if isinstance(expression, exp.UnixToTime):
+        if expression.args.get("scale"):
+            return expression
+        return exp.Cast("""))
+V("c18-every-tx-error-swallowed", A, ["C18", "C13"], "C13.c",
+  ("cursor", """            if "cannot rollback - no transaction is active" in str(
+                e
+            ) or "cannot commit - no transaction is active" in str(e):""", """            if cmd in ("TRANSACTION", "COMMIT", "ROLLBACK"):"""))
+V("c04-description-on-own-cursor", A, "C04", "C04.h",
+  ("cursor", """        with self._conn.cursor() as cur:
+            # TODO: can we replace with self._duck_conn.description?
+            expression = sqlglot.parse_one(f"DESCRIBE {self._last_sql}", read="duckdb")
+            cur._execute(expression, self._last_params)  # noqa: SLF001
+            return cur.fetchall()""", """        held = (self._arrow_table, self._arrow_table_fetch_index, self._last_sql, self._last_params)
+        try:
+            expression = sqlglot.parse_one(f"DESCRIBE {self._last_sql}", read="duckdb")
+            self._execute(expression, self._last_params)
+            return self.fetchall()
+        finally:
+            self._arrow_table, self._arrow_table_fetch_index, self._last_sql, self._last_params = held"""))
+V("c11-flatten-passes-fused", A, "C11", "C11.a",
+  ("cursor", """            .transform(transforms.flatten_value_cast_as_varchar)
+            .transform(transforms.flatten)""", """            .transform(lambda e: transforms.flatten(transforms.flatten_value_cast_as_varchar(e)))"""))
+V("c15-stale-substitution-kept", A, "C15", "C15.k",
+  ("variables", """    def _set(self, name: str, value: str) -> None:
+        self._variables[name] = value""", """    def _set(self, name: str, value: str) -> None:
+        self._variables.setdefault(name, value)"""))
+V("c19-temporary-dropped-from-create", A, ["C19", "C12"], "C19.e",
+  ("transforms", """                if isinstance(p, exp.SchemaCommentProperty) and (isinstance(p.this, (exp.Literal, exp.Var))):
+                    comment = p.this.this
+                else:""", """                if isinstance(p, exp.SchemaCommentProperty) and (isinstance(p.this, (exp.Literal, exp.Var))):
+                    comment = p.this.this
+                elif isinstance(p, exp.TemporaryProperty):
+                    continue
+                else:"""))
